@@ -58,7 +58,7 @@ CCallOK(e) ==
     /\ e.inDelta <= e.inAvail /\ e.outDelta <= e.outAvail
     /\ e.srcPos = cIn + e.inDelta /\ e.emitted = cEm + e.outDelta
     \* progress (C10a): consumable input and writable output => something moves, or the directive completes
-    /\ (e.inAvail > 0 /\ e.outAvail > 0) => (e.inDelta + e.outDelta > 0)
+    /\ (e.inAvail > 0 /\ e.outAvail > 0) => (e.inDelta > 0 \/ e.outDelta > 0)     \* (stable-input mode may take back input it pretended to consume: inDelta < 0)
     /\ (e.inAvail = 0 /\ e.outAvail > 0 /\ e.dir # 0) => (e.outDelta > 0 \/ e.ret = 0)
     \* a flush / end directive reports completion only when every offered byte was taken
     /\ (e.dir # 0 /\ e.ret = 0 /\ e.fn \in {"compressStream2", "flushStream", "endStream", "ZBUFF_compressFlush", "ZBUFF_compressEnd"}) => e.inDelta = e.inAvail
@@ -100,6 +100,12 @@ Prefix == /\ Is("prefix")
 \* C05-lite / C02: what was emitted is a sequence of complete frames when the last call completed a frame
 Layout == /\ Is("layout") /\ Ev.size = cEm
           /\ (ended \/ cEm = 0) => (Ev.walk = 0 /\ Ev.complete)
+          \* C05: a Frame_Content_Size field, when present, tells the truth
+          /\ (Ev.walk = 0 /\ Ev.complete) =>
+                \A i \in 1..Len(Ev.frames) :
+                    LET k == Cardinality({j \in 1..i : Ev.frames[j].skippable = 0}) IN
+                    (Ev.frames[i].skippable = 0 /\ Ev.frames[i].fcs # -1 /\ k <= Len(Ev.srcEnds)) =>
+                        Ev.frames[i].fcs = Ev.srcEnds[k] - (IF k = 1 THEN 0 ELSE Ev.srcEnds[k - 1])
           /\ frames' = Ev.frames /\ srcEnds' = Ev.srcEnds
           /\ UNCHANGED <<cIn, cEm, frameIn, ending, pledged, flushed, ended, cErr, dIn, dOut, dErr>>
 
